@@ -83,6 +83,10 @@ def execute(p, ch):
             stdout = V.aio_text(sink, loop, ctl)
             handlers.append(ConnectionHandler(router, stdin, stdout))
         msgs = [numbered(i, p.get("big", 0) if i == p.get("big_at", 0) else 0) for i in range(p["burst"])]
+        if p.get("repeat"):
+            # the same content sent again with something else in between (On, Off, On): equal messages are still
+            # separate messages
+            msgs = [numbered(i % 2) for i in range(p["burst"])]
         if p.get("big") and tr in ("tcp-server", "mixed", "tty"):
             import indi.message as M
 
@@ -230,6 +234,10 @@ def configs(tier):
             out.append(dict(transport=tr, nconn=1, burst=2, toggles=3, victim=None, big=100000, big_at=0))
             out.append(dict(transport=tr, nconn=1, burst=3, toggles=2, victim=None, big=100000, big_at=1))
         out.append(dict(transport="tty", nconn=1, burst=2, toggles=0, victim=None, W=2, big=100000, big_at=0))
+        for tr in ("tcp-client", "tcp-server"):
+            out.append(dict(transport=tr, nconn=1, burst=3, toggles=2, victim=None, repeat=True))
+            out.append(dict(transport=tr, nconn=1, burst=4, toggles=1, victim=None, repeat=True))
+        out.append(dict(transport="tty", nconn=1, burst=3, toggles=0, victim=None, W=2, repeat=True))
         for victim in (0, 1, 2):
             for batch in (1, 64, 2500):
                 out.append(dict(transport="tcp-server", nconn=3, burst=2500, toggles=0, victim=victim, backlog=True, batch=batch))
@@ -241,6 +249,10 @@ def configs(tier):
             for batch in (1, 64, 9000):
                 out.append(dict(transport="tcp-server", nconn=3, burst=9000, toggles=0, victim=None, stall=stall, backlog=True, batch=batch))
         out.append(dict(transport="tcp-client", nconn=1, burst=9000, toggles=0, victim=None, stall=0, backlog=True, batch=64))
+        for tr in ("tcp-client", "tcp-server"):
+            for burst in (3, 4, 5):
+                out.append(dict(transport=tr, nconn=1, burst=burst, toggles=3, victim=None, repeat=True))
+        out.append(dict(transport="tty", nconn=1, burst=4, toggles=0, victim=None, W=3, repeat=True))
         for victim in (0, 1, 2):
             for batch in (1, 7, 64, 1000, 9000):
                 out.append(dict(transport="tcp-server", nconn=3, burst=9000, toggles=0, victim=victim, backlog=True, batch=batch))
